@@ -2,7 +2,14 @@
 
 package gradtrack
 
-import "github.com/sahandsafizadeh/qeep/tensor/internal/tensor"
+import (
+	"fmt"
+	"reflect"
+	"sort"
+	"strings"
+
+	"github.com/sahandsafizadeh/qeep/tensor/internal/tensor"
+)
 
 // VerifState returns a read-only view of a gradient context's private state.
 func VerifState(gctx any) (tracked, bpdirty bool, gradient tensor.Tensor, targets []tensor.Tensor, ok bool) {
@@ -17,4 +24,38 @@ func VerifState(gctx any) (tracked, bpdirty bool, gradient tensor.Tensor, target
 	}
 
 	return g.tracked, g.bpdirty, g.gradient, targets, true
+}
+
+// VerifScalarFields renders every scalar field of a gradient context as
+// name=value (sorted), and for reference fields other than gradient/backEdges
+// whether they are set; makes bookkeeping fields visible to write-set checks.
+func VerifScalarFields(gctx any) string {
+	g, isCtx := gctx.(*GradContext)
+	if !isCtx || g == nil {
+		return ""
+	}
+	v := reflect.ValueOf(g).Elem()
+	var out []string
+	for i := 0; i < v.NumField(); i++ {
+		f := v.Field(i)
+		name := v.Type().Field(i).Name
+		switch f.Kind() {
+		case reflect.Bool:
+			out = append(out, fmt.Sprintf("%s=%v", name, f.Bool()))
+		case reflect.Int, reflect.Int8, reflect.Int16, reflect.Int32, reflect.Int64:
+			out = append(out, fmt.Sprintf("%s=%d", name, f.Int()))
+		case reflect.Uint, reflect.Uint8, reflect.Uint16, reflect.Uint32, reflect.Uint64:
+			out = append(out, fmt.Sprintf("%s=%d", name, f.Uint()))
+		case reflect.Float32, reflect.Float64:
+			out = append(out, fmt.Sprintf("%s=%v", name, f.Float()))
+		case reflect.String:
+			out = append(out, fmt.Sprintf("%s=%q", name, f.String()))
+		case reflect.Ptr, reflect.Interface, reflect.Slice, reflect.Map, reflect.Func, reflect.Chan:
+			if name != "gradient" && name != "backEdges" {
+				out = append(out, fmt.Sprintf("%s.set=%v", name, !f.IsNil()))
+			}
+		}
+	}
+	sort.Strings(out)
+	return strings.Join(out, ",")
 }
